@@ -38,6 +38,19 @@ def certs():
             out.append({"name": "twin%d" % i, "cert": cert, "der": der, "fp": "sha256:" + hashlib.sha256(der).hexdigest(),
                         "pem": cert.public_bytes(serialization.Encoding.PEM),
                         "key_pem": key.private_bytes(serialization.Encoding.PEM, serialization.PrivateFormat.PKCS8, serialization.NoEncryption())})
+        # certificates outside their validity period (expired a year ago / not valid for another year): TOFU pins the certificate,
+        # not its dates - a pin mismatch is a pin mismatch whatever else is wrong with the certificate presented
+        now = datetime.datetime.now(datetime.timezone.utc)
+        for nm, nb, na in (("expired", now - datetime.timedelta(days=800), now - datetime.timedelta(days=365)),
+                           ("notyet", now + datetime.timedelta(days=365), now + datetime.timedelta(days=800))):
+            key = ec.generate_private_key(ec.SECP256R1())
+            subj = x509.Name([x509.NameAttribute(NameOID.COMMON_NAME, "nv-" + nm)])
+            cert = (x509.CertificateBuilder().subject_name(subj).issuer_name(subj).public_key(key.public_key()).serial_number(x509.random_serial_number())
+                    .not_valid_before(nb).not_valid_after(na).sign(key, hashes.SHA256()))
+            der = cert.public_bytes(serialization.Encoding.DER)
+            out.append({"name": nm, "cert": cert, "der": der, "fp": "sha256:" + hashlib.sha256(der).hexdigest(),
+                        "pem": cert.public_bytes(serialization.Encoding.PEM),
+                        "key_pem": key.private_bytes(serialization.Encoding.PEM, serialization.PrivateFormat.PKCS8, serialization.NoEncryption())})
         _CERTS = out
     return _CERTS
 
